@@ -46,7 +46,8 @@ pub fn all() -> Vec<PropInfo> {
         watchdog: (300, 3600),
         rule: "cases (seq, k) drawn by SeqGen x k in 1..=31 and compared with the naive window-scan model, through the core iterator and (as UTF-8 strings, bytes >= 0x80 mapped to two-byte characters) through pykmertools.KmerGenerator; \
                non-trivial = at least one window is emitted and (a foreign byte is present or k >= 16 or a lower-case/U base); \
-               distinct by hash of (seq, k)",
+               distinct by hash of (seq, k) \
+               plus giant sequences (66 000 bases to 2.3 M quick / 17.5 M thorough; periodic, homopolymer, pseudo-random; foreign edits) compared item by item with a streaming enumeration of the model (Python: count and digest), and cold-start cases: a fresh process whose 2-16 threads make their first iterator calls together",
         assumptions: &["bytes 0x00-0x03 are never generated (left unspecified by the property)", "k outside 1..=31 never generated"],
         abort_is_violation: false,
     },
@@ -59,7 +60,8 @@ pub fn all() -> Vec<PropInfo> {
         rule: "(a) every code x < 4^k enumerated for small k and sampled (uniform, extremes, palindromes, single-bit patterns, top digit set) for k up to 31: \
                involution, agreement with text-level reverse complement, decode/encode round trip; non-trivial = x not in {0, 4^k-1}. \
                (a') pykmertools to_acgt of both iterator classes against the model's decoding; (b) sequences x k: each pair's second component is the reverse complement of the first, the stream of the reverse-complemented text is the mirrored stream, \
-               canonical multisets agree; non-trivial = at least 2 windows and seq != its reverse complement; distinct by hash of the case",
+               canonical multisets agree; non-trivial = at least 2 windows and seq != its reverse complement; distinct by hash of the case \
+               plus cold-start cases (fresh process, 2-16 threads released together, first calls of rev_comp / numeric_to_kmer / the iterator on generated arguments)",
         assumptions: &["codes >= 4^k are never passed (unspecified)", "reverse complement of a foreign byte is itself; U complements to A"],
         abort_is_violation: false,
     },
@@ -70,7 +72,8 @@ pub fn all() -> Vec<PropInfo> {
         shards: (4, 8),
         watchdog: (300, 3600),
         rule: "one evaluation = one (k, code) pair of the exhaustive enumeration of all 4^k codes (plus one structural check per k and one per header source); \
-               non-trivial = the code is canonical (its column is specified); entries of the k-mer->index vector at non-canonical codes are not inspected; distinct by (k, code)",
+               non-trivial = the code is canonical (its column is specified); entries of the k-mer->index vector at non-canonical codes are not inspected; distinct by (k, code) \
+               CLI headers are taken on five inputs (one record, empty .fa, empty .fq, three records, three records on stdin) and every data row must have as many values as the header names; plus cold-start cases: rank tables for several k per thread, any order, 2-16 threads at once in a fresh process",
         assumptions: &["header via the executable is checked for k in 3..=7 (the range the CLI accepts) and all three presets, in normalised and counts mode"],
         abort_is_violation: false,
     },
@@ -82,7 +85,8 @@ pub fn all() -> Vec<PropInfo> {
         watchdog: (600, 7200),
         rule: "records (SeqGen incl. foreign bytes, low-complexity and palindromic content, degenerate lengths) x k in 1..=8 x {normalised, counts}: (1) the per-sequence routine compared unrounded with model counts; \
                (2) the file API through both writers, (3) the executable (k 3..=7) and (4) pykmertools.OligoComputer.vectorise_one through a python3-vt worker; in (2)/(3) every record is followed by its reverse-complement, lower-case and T->U variants so that the invariances are checked on the same output; \
-               values: exact integers in counts mode, within 5e-7 of count/total in normalised mode; non-trivial = some record has >= 2 distinct non-zero columns; distinct by hash of the case",
+               values: exact integers in counts mode, within 5e-7 of count/total in normalised mode; non-trivial = some record has >= 2 distinct non-zero columns; distinct by hash of the case \
+               (5) giant records of 60 000 to 3.4 M (17.5 M) bases, one third homopolymers with a single other base at an end (a frequency that rounds up to 1.000000), through both writers and through Python",
         assumptions: &["normalised text compared with a tolerance of 5e-7 + 1e-12 (\"correct to 6 decimals\"), variant rows within 1e-6", "the Python leg feeds ASCII strings (bytes >= 0x80 masked); non-ASCII input is C13's subject"],
         abort_is_violation: false,
     },
@@ -94,7 +98,8 @@ pub fn all() -> Vec<PropInfo> {
         watchdog: (600, 7200),
         rule: "record lists (0..=40 quick / 300 thorough) x k 1..=4 x threads 1..=16 x batch limit {1 byte, one record, three records, half, 4 GiB} x writer {mmap, batch} x norm x header x 3 delimiters x container (FASTA, wrapped, CRLF, FASTQ, gzip incl. multi-member) x schedule (free, perturbed, controlled choice vector); \
                oracle: baseline (1 thread, batch writer, single-line FASTA) matches the model row by row, the generated configuration gives identical bytes, header-on = header line + header-off bytes; plus bounded-exhaustive enumeration of all hook-granularity schedules of the mmap writer for small inputs; \
-               non-trivial = >= 3 records and (threads >= 2 or >= 2 batches or a non-FIFO controlled schedule or a non-baseline container); distinct by hash of the case",
+               non-trivial = >= 3 records and (threads >= 2 or >= 2 batches or a non-FIFO controlled schedule or a non-baseline container); distinct by hash of the case \
+               plus big outputs: a record list repeated until the output has 64 KiB, 1, 4, 8 (16, 32) MiB, k 3..=8, optional long first record",
         assumptions: &["interleavings finer than the two schedule points per worker loop are explored only by free-running threads", "mmap writer is only used in normalised mode (it asserts so)"],
         abort_is_violation: false,
     },
@@ -118,7 +123,8 @@ pub fn all() -> Vec<PropInfo> {
         watchdog: (600, 7200),
         rule: "mmap writer: records x k 1..=8 x delimiters of length 0..=4 x header x threads x schedule; every (pos,len,cap) logged in MMWriter::write_at must be in bounds, pairwise disjoint and tile [0,cap), cap = file size = header + n x row length, no NUL byte in the file; \
                coverage (bin size/count 1..6 with k-mer multiplicities exactly at, just around and far beyond bin size x bin count), counting (partitions far above the number of distinct k-mers, k up to 31), k-mer CGR and the per-sequence oligo routine are executed in the same journaled child: shards are built with debug assertions so a violated get_unchecked precondition aborts the shard (dead shard = violation, journaled case = replay); \
-               non-trivial = mmap: >= 2 records and (delimiter length != 1 or header or threads >= 2); cov: multiplicity >= bin size x bin count - 1 and a valid window; ctr: >= 2 partitions; distinct by hash of the case",
+               non-trivial = mmap: >= 2 records and (delimiter length != 1 or header or threads >= 2); cov: multiplicity >= bin size x bin count - 1 and a valid window; ctr: >= 2 partitions; distinct by hash of the case \
+               the mmap leg also runs with a giant record (frequencies rounding up to 1); the coverage kernel also with an unrelated or k-mer-free counting input",
         assumptions: &["an out-of-bounds read through a site without ub_checks is not observable", "the write-log hook panics before an out-of-bounds copy would happen, so the harness process is not corrupted"],
         abort_is_violation: true,
     },
@@ -154,7 +160,8 @@ pub fn all() -> Vec<PropInfo> {
         watchdog: (900, 7200),
         rule: "inputs (RecGen incl. all-empty files and degenerate lengths, all containers) x k 1..=31 x bin size {1..8,16,1000} x bin count {1..8,16} x normalised/raw x optional separate counting input sharing a prefix of the records x threads x memory {input-derived (several counting chunks, flush per record), 0.5, 1, 6 GB} x delimiter; \
                kmers.vectors must have one row per record in input order, each equal to the model histogram built from the model count table (exact raw, 5e-7 normalised); \
-               non-trivial = >= 2 records and (a window saturates into the last bin or some record has >= 2 non-zero bins); distinct by hash of the case",
+               non-trivial = >= 2 records and (a window saturates into the last bin or some record has >= 2 non-zero bins); distinct by hash of the case \
+               bin sizes to 5000 and an extra record whose k-mers occur exactly m x bin size (+0, +-1) times; re-run-in-place cases: same directory and same input path, file rewritten with other records of the same byte size (mtime kept in half of the cases), second result against the model of the new content",
         assumptions: &["'flush per few records' needs > 1 GiB of bases per batch and is not generated", "tolerance 5e-7 + 1e-12 for 6-decimal text"],
         abort_is_violation: false,
     },
@@ -165,7 +172,8 @@ pub fn all() -> Vec<PropInfo> {
         shards: (8, 16),
         watchdog: (300, 3600),
         rule: "(a) all strings over {A,C,G,T,N} up to a length bound crossed with a fixed list of small (w,m); (b) random (bytes, w, m) with m<=31, w<=m+60; \
-               iterator output (core, and pykmertools.MinimiserGenerator on UTF-8 strings) compared with the model's maximal runs; non-trivial = the model has >= 2 runs, or >= 1 run and a foreign byte; distinct by enumeration / hash of the case",
+               iterator output (core, and pykmertools.MinimiserGenerator on UTF-8 strings) compared with the model's maximal runs; non-trivial = the model has >= 2 runs, or >= 1 run and a foreign byte; distinct by enumeration / hash of the case \
+               plus giant cases: pseudo-random sequences of 66 000 to 400 000 (3 M) bases with w = length, w-m+1 = 65536+-3, w >= 2^16 or small w, through the core iterator and (0.9-4.5 M bases) through Python, oracle = monotone-queue variant of the model cross-checked against the naive one; offsets beyond 2^32 in the thorough tier (shift relation); cold-start cases",
         assumptions: &["1 <= m <= w, m <= 31 by construction", "bytes 0x00-0x03 never generated"],
         abort_is_violation: false,
     },
@@ -189,7 +197,8 @@ pub fn all() -> Vec<PropInfo> {
         watchdog: (900, 7200),
         rule: "(1) nucleotide strings (ACGTU either case, low-complexity included) x S in 1..2^20 through the per-sequence routine: every point equals the exact dyadic model (bit-exact while the exact value fits 53 bits, within S*2^-48 beyond), lies in the sub-square fixed by its last min(i,20) bases, and is unchanged when a suffix is appended; \
                (2) strings with one inserted foreign byte must be refused (Err or panic), never Ok; (2') pykmertools.CgrComputer.vectorise_one: exact points for nucleotide strings, ValueError for any string holding another character (incl. non-ASCII); (3) files of nucleotide records x containers x threads x batch limit {1 byte, 3 records, half, 4 GiB}, optionally with one poisoned record: rows per record in order, and on refusal only correct complete rows of records before the offending one; \
-               non-trivial = length >= 5 with >= 3 distinct bases (direct) / >= 2 records one of them >= 5 bases (files); distinct by hash of the case",
+               non-trivial = length >= 5 with >= 3 distinct bases (direct) / >= 2 records one of them >= 5 bases (files); distinct by hash of the case \
+               every point list is also checked locally: point i = midpoint of the reported point i-1 and the corner within 4 ulp; long low-complexity sequences (8 000 - 70 000 / 1.2 M bases) through the library routine and Python",
         assumptions: &["a panic counts as 'rejected with an error'", "S >= 1; exactness rule: exact iff the exact value needs <= 53 significant bits"],
         abort_is_violation: false,
     },
@@ -200,7 +209,8 @@ pub fn all() -> Vec<PropInfo> {
         shards: (8, 16),
         watchdog: (900, 7200),
         rule: "records (foreign bytes allowed, degenerate lengths) x containers x k 1..=7 x S x normalised/raw x threads x batch limit: row i has one (x,y,f) per canonical k-mer in rank order, (x,y) = exact chaos-game end point of the k-mer text (identical in every row), f within 1e-9 of the model oligo value and equal (5e-7 / exact) to what comp oligo writes for the same file; \
-               non-trivial = >= 2 records and some record with >= 2 non-zero columns; distinct by hash of the case",
+               non-trivial = >= 2 records and some record with >= 2 non-zero columns; distinct by hash of the case \
+               plus the same check through the executable (S in {1, 2, 3, k^2, 2^20, uniform}) and giant records with counts beyond 2^16 and 2^24",
         assumptions: &["k-mer end points are exactly representable for k <= 7 and S <= 2^20 (asserted)"],
         abort_is_violation: false,
     },
@@ -236,7 +246,8 @@ pub fn all() -> Vec<PropInfo> {
         watchdog: (900, 7200),
         rule: "histories of 2-3 runs (any subcommands writing the same kind of location, different inputs, k, threads; library runs of ctr/cov with input-derived memory ceilings and merge(false) so that stale temp_kmers.* of more chunks/partitions remain; 15% repeat the same command) sharing one output path or directory; \
                the result files after the last run must equal those of the same run in a fresh location (bytes for ordered outputs, sorted lines for counts tables and minimiser listings); \
-               non-trivial = the earlier run left a longer result or stale temp files; distinct by hash of the case",
+               non-trivial = the earlier run left a longer result or stale temp files; distinct by hash of the case \
+               steps read one of two input paths; a file is only rewritten when its content changes (optionally keeping its mtime); shapes: same command twice, X-Y-X with X's file untouched, input rewritten in place with the same byte size",
         assumptions: &["a history whose step fails is skipped (clean termination is C16's subject)", "file-based and directory-based subcommands are not mixed in one history"],
         abort_is_violation: false,
     },
@@ -247,7 +258,8 @@ pub fn all() -> Vec<PropInfo> {
         shards: (8, 16),
         watchdog: (300, 3600),
         rule: "same generators as C09 with w <= 31; runs compared with the plain iterator (differential) and the concatenated k-mer lists with the model's canonical w-mers; \
-               non-trivial = (>= 2 runs or a foreign byte with >= 1 run) and >= 1 w-mer; distinct by enumeration / hash of the case",
+               non-trivial = (>= 2 runs or a foreign byte with >= 1 run) and >= 1 w-mer; distinct by enumeration / hash of the case \
+               plus giant sequences (66 000 - 400 000 / 3 M bases), a differential leg with raw bytes 0x00-0x03 (runs equal to the plain iterator's, as many w-mers as windows in the runs), offsets beyond 2^32 in the thorough tier, cold-start cases",
         assumptions: &["1 <= m <= w <= 31 by construction"],
         abort_is_violation: false,
     }]
